@@ -33,7 +33,15 @@ REWRITERS = ["InstBundleElabPass", "ResolvePortRefs", "BundleFlattener", "ArrayF
 
 
 class Injected(Exception):
-    pass
+    """The injected failure: a user-defined exception whose constructor signature is not its .args (so it cannot be re-created
+    from them, as copy.copy / pickle would try to)."""
+
+    def __init__(self, what, where="harness", *, code=7):
+        super().__init__("%s [%s/%d]" % (what, where, code))
+        self.what, self.where, self.code = what, where, code
+
+    def __reduce__(self):
+        raise TypeError("Injected cannot be reduced")
 
 
 class Interrupted(BaseException):
@@ -266,6 +274,25 @@ def run_scenario(spec, fault, cont):
                 first = lambda: G2(f=fn)
             elif fault["where"] in ("direct", "direct_base"):
                 first = lambda: G(k=1)
+            elif fault["where"] == "nested_caught":
+                # the failing call happens inside another generator's body, which catches the error and completes;
+                # the call under test is the next, direct one with equal parameters
+                def tolerant(params: GP) -> h.Module:
+                    m = h.Module()
+                    try:
+                        m.add(G(k=1)(), name="inner")
+                    except Injected:
+                        m.add(h.Signal(name="fallback"))
+                    return m
+                tolerant.__name__ = "TolerantGen"
+                T = h.generator(tolerant)
+                T(k=1)
+                if gen_counts.get("n") != 1:
+                    return {"first": "prelude_did_not_fail"}
+
+                def first():
+                    raise Injected("generator body raised on its first call (inside a generator that caught it)")
+                real_first = lambda: G(k=1)
             elif fault["where"] in ("nested", "nested_base"):
                 def outer(params: GP) -> h.Module:
                     m = h.Module()
@@ -305,7 +332,7 @@ def run_scenario(spec, fault, cont):
     try:
         if cont == "retry":
             if kind == "gen_raises":
-                m = first()
+                m = real_first() if fault["where"] == "nested_caught" else first()
                 out["cont"] = "returned"
                 out["gen_runs"] = gen_counts.get("n")
                 out["bytes"] = export(m if isinstance(m, h.Module) else m)
@@ -372,7 +399,7 @@ def faults_for(spec):
         for m in mods:
             for k in (1, 2, 3):
                 out.append({"kind": "mid_rewrite", "pass": pname, "module": m, "k": k})
-    for where in ("direct", "nested", "in_module", "naming", "direct_base", "nested_base"):
+    for where in ("direct", "nested", "in_module", "naming", "direct_base", "nested_base", "nested_caught"):
         out.append({"kind": "gen_raises", "where": where})
     return out
 
